@@ -31,6 +31,7 @@ def plan(tier, seed):
     cs = sorted(data.countries())
     sh = [{"countries": c, "tier": tier, "_name": f"c-{i}"} for i, c in enumerate(gen.chunk(cs, 16 if tier == "quick" else 42))]
     sh.append({"countries": ["ZZ", "XX", "", "de", "D", "DEU", "A1"], "tier": tier, "unknown": True, "_name": "unknown"})
+    sh.append({"kind": "long", "tier": tier, "_name": "long-history"})
     return sh
 
 
@@ -89,9 +90,23 @@ def field_classes(spec, pos, comp):
     return cls[s:e]
 
 
-def judge_generate(mon, S, cc, bank, acct, branch, table):
+def judge_generate(mon, S, cc, bank, acct, branch, table, extra=None):
     exp = RG.expect_generate(cc, bank, acct, branch, table)
-    o = observe(S.IBAN.generate, cc, bank_code=bank, account_code=acct, branch_code=branch)
+    o = observe(S.IBAN.generate, cc, bank_code=bank, account_code=acct, branch_code=branch, **(extra or {}))
+    if extra is None and hash((cc, bank, acct)) % 7 == 0:
+        # the same request with the keyword arguments generate() has always accepted on top: the statement
+        # (a valid IBAN carrying the components, or a library error) has no exemption for them
+        for ex_ in ({"allow_invalid": True}, {"validate_bban": True}, {"allow_invalid": 1, "validate_bban": 0}):
+            ox = observe(S.IBAN.generate, cc, bank_code=bank, account_code=acct, branch_code=branch, **ex_)
+            mon.tally("generate_with_extra_keywords")
+            if isinstance(ox.exc, TypeError):
+                continue  # a tree may stop accepting unknown keywords
+            if exp.kind == "error" and ox.ok:
+                mon.viol("generate_with_extra_keywords_returned_despite_" + exp.why.replace(" ", "_")[:40], {"country": cc, "bank_code": esc(bank), "account_code": esc(acct), "branch_code": esc(branch), "extra": ex_}, f"library error ({exp.why})", str(ox.value))
+            elif exp.kind == "return" and ox.ok and str(ox.value) != exp.iban:
+                mon.viol("generate_with_extra_keywords_placed_components_wrongly", {"country": cc, "bank_code": esc(bank), "account_code": esc(acct), "branch_code": esc(branch), "extra": ex_}, exp.iban, str(ox.value))
+            elif not ox.ok and not judge.is_lib_exc(ox.exc):
+                mon.viol(f"escape:generate:{ox.exc_name}", {"country": cc, "extra": ex_}, "library error", ox.brief())
     mon.ev()
     mon.tally("expect_" + exp.kind)
     w = {"country": cc, "bank_code": esc(bank), "account_code": esc(acct), "branch_code": esc(branch), "why": exp.why}
@@ -141,10 +156,37 @@ def judge_components(mon, S, cc, bank, acct, branch, table):
             mon.viol(f"from_components_too_long_wrong_class:{o.exc_name}", w, sorted(exp.classes), o.brief())
 
 
+def run_long(shard, mon, S, table):
+    """One process, many thousands of *distinct* requests for the countries that compute national digits, with
+    requests whose computation is refused sprinkled in: whatever the library remembers between calls (and has
+    to forget again at some size) must not change a later answer."""
+    from vf.ref import national as N_  # noqa: PLC0415
+
+    rng = env.rng("C08", "long")
+    cs = [c for c in N_.COMPUTING if c in table and data.positions(table[c])]
+    total = 9000 if shard["tier"] == "quick" else 150000
+    for i in range(total):
+        cc = cs[i % len(cs)]
+        spec = table[cc]
+        pos = data.positions(spec)
+        wd = {k: (pos[k][1] - pos[k][0] if k in pos else 0) for k in ("bank_code", "branch_code", "account_code")}
+        cls = {k: field_classes(spec, pos, k) for k in wd}
+        kind = "junk" if i % 257 == 3 else "wrongclass" if i % 263 == 5 else "exact"
+        bank = comp_value(rng, cls["bank_code"], wd["bank_code"], 0, "exact")
+        acct = comp_value(rng, cls["account_code"], wd["account_code"], 0, kind)
+        branch = comp_value(rng, cls["branch_code"], wd["branch_code"], 0, "exact") if wd["branch_code"] else ""
+        judge_generate(mon, S, cc, bank, acct, branch, table, extra={})
+    mon.tally("long_history_requests", total)
+    mon.sample({"long_history": total, "countries": cs})
+
+
 def run_shard(shard, out_base):
     mon = Mon("C08")
     S = judge.lib()
     table = data.countries()
+    if shard.get("kind") == "long":
+        run_long(shard, mon, S, table)
+        return mon.result(out_base)
     n = SIZES[shard["tier"]]
     for cc in shard["countries"]:
         rng = env.rng("C08", cc)
